@@ -84,6 +84,21 @@ Theorem C01_newton_loop_exits_by_seventh_test_small_e : forall e0 i r w m n b ts
 Proof. exact P_Sgp4Newton47.newton_loop_exits_by_seventh_test3. Qed.
 Print Assumptions C01_newton_loop_exits_by_seventh_test_small_e.
 
+(* and in terms of the input: outside the degenerate island (e0 <= 0.9) an ACCEPTED element set with TLE mean motion 6.4 .. 18
+   rev/day has e0 <= 0.467 (a0'' <= 1.94 by interval arithmetic + the constructor's perigee guard), at its epoch or drag-free
+   eL <= 0.47, and so its Newton loop leaves by the seventh test *)
+From PyOrb.proofs Require P_Sgp4EpochConverges.
+Theorem C01_accepted_eccentricity : forall e0 i r w m n b,
+  gen_init_outcome e0 i r w m n b = InitMode NearNorm 1 -> 64 / 10 <= n <= 18 -> e0 <= 9 / 10 -> e0 <= 467 / 1000.
+Proof. exact P_Sgp4EpochConverges.accepted_e0. Qed.
+Print Assumptions C01_accepted_eccentricity.
+
+Theorem C01_newton_converges_at_epoch_or_drag_free : forall e0 i r w m n b ts,
+  gen_init_outcome e0 i r w m n b = InitMode NearNorm 1 -> b = 0 \/ ts = 0 -> 64 / 10 <= n <= 18 -> e0 <= 9 / 10 ->
+  forall j, gen_nn1_prop_outcome e0 i r w m n b ts = PropOk j -> (j <= 6)%nat.
+Proof. exact P_Sgp4EpochConverges.converges_at_epoch. Qed.
+Print Assumptions C01_newton_converges_at_epoch_or_drag_free.
+
 (* THE 1 mm / 1 um/s CLAIM with no hypothesis on the loop: every answered propagation (e0 > 1e-4) with a <= 4 earth radii and
    eL^2 <= 4/25 returns -- nn1_returned j being the six elements handed to kep2xyz when the loop is left at test j --
    a position within 1e-6 km and a velocity within 1e-9 km/s, per coordinate, of the report's at the unique exact solution
